@@ -68,7 +68,7 @@ def run(ctx):
     run_rules(facts, rep)
     for r, n in (("table", 16), ("encoding", 10), ("unpack", 3), ("lookup", 4), ("advance", 3), ("order", 7),
                  ("action-map", 16), ("guards", 9), ("reset", 9), ("limits", 7), ("params", 8), ("utf8", 3),
-                 ("osc", 4)):
+                 ("osc", 4), ("osc-arms", 3)):
         rep.floor(r, n)
 
 
@@ -100,6 +100,73 @@ def run_rules(facts, rep, skip=()):
         rep.guarded("utf8", "process_utf8", lambda: rule_utf8(facts, rep))
     if "osc" not in skip:
         rep.guarded("osc", "osc_dispatch", lambda: rule_osc_dispatch(facts, rep))
+    if "osc-arms" not in skip:
+        rep.guarded("osc-arms", "perform_action", lambda: rule_osc_arms(facts, rep))
+
+
+def rule_osc_arms(facts, rep):
+    """The OSC bookkeeping arms by abstract evaluation, for every parameter count 0..=16: a payload byte is always appended to the raw
+    buffer (whatever the count — only a full fixed buffer may refuse it) and changes nothing else; `;` closes the current parameter
+    as (end of the previous one or 0, current length) and counts it, unless 16 are closed already; OscEnd closes the last
+    parameter the same way and then dispatches."""
+    import abseval
+    b = facts.body(cp.CRATE, P + "perform_action")
+    m = top_match(b, "action")
+    tbl, _ = arms_by_variant(m, cp.ACTION)
+    LIM = C04_LIMIT = 16
+    bad = {"payload-byte-always-buffered": [], "separator-closes-a-parameter": [], "end-closes-the-last-parameter-then-dispatches": []}
+    n_cases = 0
+    for arm, byte_cases in (("OscPut", ((("int", 0x78), "payload"), (("int", 0x3b), "separator"))), ("OscEnd", ((("int", 0x07), "end"),))):
+        for byte, what in byte_cases:
+            for count in range(0, LIM + 1):
+                n_cases += 1
+                pushes, stores, dispatched = [], [], []
+                prev_end = ("sym", "end-of-previous")
+
+                def load(a_, count=count):
+                    if a_[0] == ("int", count - 1) and count >= 1:
+                        return ("tuple", ("sym", "begin-of-previous"), prev_end)
+                    raise Unrecognised(f"osc_params read at {a_[0]} with {count} parameters closed")
+                ev = abseval.Evaluator(facts, cp.CRATE, {
+                    "alloc::vec::Vec::<T, A>::push": lambda a_: (pushes.append(a_[1]), ("unit",))[1],
+                    "arrayvec::arrayvec::ArrayVec::<T, CAP>::push": lambda a_: (pushes.append(a_[1]), ("unit",))[1],
+                    "alloc::vec::Vec::<T, A>::len": lambda a_: ("sym", "raw-len"), "arrayvec::arrayvec::ArrayVec::<T, CAP>::len": lambda a_: ("sym", "raw-len"),
+                    "arrayvec::arrayvec::ArrayVec::<T, CAP>::is_full": lambda a_: ("bool", False),
+                    "core::slice::<impl [T]>::len": lambda a_: ("sym", "raw-len"),
+                    "load:self.osc_params": load,
+                    "store:self.osc_params": lambda a_: stores.append((a_[0], a_[1])),
+                    P + "osc_dispatch": lambda a_: (dispatched.append(list(a_)), ("unit",))[1],
+                    "AddAssign": lambda a_: ("int", a_[0][1] + a_[1][1]) if a_[0][0] == "int" and a_[1][0] == "int" else ("bin", "Add", a_[0], a_[1]),
+                })
+                env = abseval.Env()
+                env.update({"self": ("sym", "self"), "self.osc_num_params": ("int", count), "self.osc_raw": ("sym", "raw"), "byte": byte,
+                            "performer": ("sym", "performer")})
+                try:
+                    try:
+                        ev.ev(tbl[arm]["body"], env)
+                    except abseval.Return:
+                        pass
+                    after = env["self.osc_num_params"]
+                    begin = ("int", 0) if count == 0 else prev_end
+                    closed = [(("int", count), ("tuple", begin, ("sym", "raw-len")))]
+                    if what == "payload":
+                        if pushes != [byte] or stores or after != ("int", count) or dispatched:
+                            bad["payload-byte-always-buffered"].append(f"{count} parameters closed: pushes {pushes}, index stores {stores}, count becomes {after}")
+                    elif what == "separator":
+                        want_st, want_n = (closed, ("int", count + 1)) if count < LIM else ([], ("int", count))
+                        if pushes or stores != want_st or after != want_n or dispatched:
+                            bad["separator-closes-a-parameter"].append(f"{count} parameters closed: pushes {pushes}, index stores {stores} (expected {want_st}), count becomes {after}")
+                    else:
+                        want_st, want_n = (closed, ("int", count + 1)) if count < LIM else ([], ("int", count))
+                        if pushes or stores != want_st or after != want_n or dispatched != [[("sym", "self"), ("sym", "performer"), byte]]:
+                            bad["end-closes-the-last-parameter-then-dispatches"].append(
+                                f"{count} parameters closed: index stores {stores} (expected {want_st}), count becomes {after}, dispatch {dispatched}")
+                except Unrecognised as ex:
+                    key = {"payload": "payload-byte-always-buffered", "separator": "separator-closes-a-parameter"}.get(what, "end-closes-the-last-parameter-then-dispatches")
+                    bad[key].append(f"{count} parameters closed: not evaluable: {ex}")
+    rep.count(n_cases)
+    for key, v in bad.items():
+        rep.check(not v, "osc-arms", b["path"], key, f"{n_cases} cases evaluated (parameter counts 0..=16) {v[:2]}"[:500], loc(b, tbl["OscPut"]))
 
 
 def rule_unpack(facts, rep):
